@@ -12,25 +12,60 @@ Definition jv_swap (r : swapres) : jv :=
 Definition mk_kernel ms zs vs ps si : kernel :=
   {| k_mem := ms; k_zone := zs; k_vm := vs; k_pagesize := ps; k_sysinfo := si |}.
 
-(* kernel-shaped input: printed files, model answer, demanded answer (when the record is well formed) *)
-Definition run_vm (ps : Z) (ms : list mline) (zs : option (list zline)) : jv :=
+(* kernel-shaped input: printed files, model answer, demanded answer (when the record is well formed),
+   flags [junk present; float_exact].  [len] selects the lenient meminfo parser (see Model.mem_step). *)
+Definition run_vm (len : bool) (ps : Z) (ms : list mitem) (zs : option (list zline)) : jv :=
   let k := mk_kernel ms zs None ps (0, 0, 1) in
   let mi := k_meminfo ms in
   let zi := option_map k_zoneinfo zs in
   JL [ JB mi; jopt JB zi;
-       jv_outcome jv_vm (virtual_memory ps mi zi);
-       (if wf_kernel k && has_total_free k then JC "Val" [jv_vm (spec_vm k)] else jnone) ].
+       jv_outcome jv_vm (virtual_memory_gen len ps mi zi);
+       (if wf_kernel k && has_total_free k && float_exact k then JC "Val" [jv_vm (spec_vm k)] else jnone);
+       jbool (negb (no_junk ms)); jbool (float_exact k) ].
 
-Definition run_swap (ps : Z) (ms : list mline) (si : Z * Z * Z) (vs : option (list vline)) : jv :=
+Definition run_swap (len : bool) (ps : Z) (ms : list mitem) (si : Z * Z * Z) (vs : option (list vitem)) : jv :=
   let k := mk_kernel ms None vs ps si in
   let mi := k_meminfo ms in
   let vi := option_map k_vmstat vs in
   JL [ JB mi; jopt JB vi;
-       jv_outcome jv_swap (swap_memory ps mi si vi);
-       (if wf_kernel k then JC "Val" [jv_swap (spec_swap k)] else jnone) ].
+       jv_outcome jv_swap (swap_memory_gen len ps mi si vi);
+       (if wf_kernel k then JC "Val" [jv_swap (spec_swap k)] else jnone);
+       jbool (negb (no_junk ms)) ].
 
 (* arbitrary (possibly malformed) bytes: model answer only *)
-Definition run_vm_raw (ps : Z) (mi : bytes) (zi : option bytes) : jv :=
-  JL [ jv_outcome jv_vm (virtual_memory ps mi zi) ].
-Definition run_swap_raw (ps : Z) (mi : bytes) (si : Z * Z * Z) (vi : option bytes) : jv :=
-  JL [ jv_outcome jv_swap (swap_memory ps mi si vi) ].
+Definition run_vm_raw (len : bool) (ps : Z) (mi : bytes) (zi : option bytes) : jv :=
+  JL [ jv_outcome jv_vm (virtual_memory_gen len ps mi zi) ].
+Definition run_swap_raw (len : bool) (ps : Z) (mi : bytes) (si : Z * Z * Z) (vi : option bytes) : jv :=
+  JL [ jv_outcome jv_swap (swap_memory_gen len ps mi si vi) ].
+
+(* a history of virtual_memory() / Process.memory_percent() calls, each over its own meminfo:
+   per step [cache after; outcome] of the model and of the specification *)
+Inductive pev := PVm (ms : list mitem) | PMp (value : Z) (ms : list mitem).
+Definition pev_mem (e : pev) : list mitem := match e with PVm ms => ms | PMp _ ms => ms end.
+Definition jv_ratio (p : Z * Z) : jv := JL [JZ (fst p); JZ (snd p)].
+Fixpoint run_phy (c : option Z) (es : list pev) : list jv :=
+  match es with
+  | [] => []
+  | PVm ms :: r =>
+    let '(c', o) := front_vm c 4096 (k_meminfo ms) None in
+    JL [jopt JZ c'; jv_outcome (fun x => JZ (v_total x)) o] :: run_phy c' r
+  | PMp v ms :: r =>
+    let '(c', o) := memory_percent c v 4096 (k_meminfo ms) None in
+    JL [jopt JZ c'; jv_outcome jv_ratio o] :: run_phy c' r
+  end.
+Fixpoint spec_phy (c : option Z) (es : list pev) : list jv :=
+  match es with
+  | [] => []
+  | PVm ms :: r =>
+    let k := mk_kernel ms None None 4096 (0, 0, 1) in
+    JL [JZ (sp_total k); JC "Val" [JZ (sp_total k)]] :: spec_phy (Some (sp_total k)) r
+  | PMp v ms :: r =>
+    let k := mk_kernel ms None None 4096 (0, 0, 1) in
+    let '(c', o) := sp_memory_percent c v k in
+    JL [jopt JZ c'; jv_outcome jv_ratio o] :: spec_phy c' r
+  end.
+Definition run_phymem (es : list pev) : jv :=
+  let ok := forallb (fun e => let k := mk_kernel (pev_mem e) None None 4096 (0, 0, 1) in
+                              wf_kernel k && has_total_free k && no_junk (pev_mem e)) es in
+  JL [ JL (map (fun e => JB (k_meminfo (pev_mem e))) es); JL (run_phy None es);
+       (if ok then JL (spec_phy None es) else jnone) ].
